@@ -280,7 +280,12 @@ pub fn dump_items<'tcx>(tcx: TyCtxt<'tcx>, w: &mut String) {
                     },
                     _ => true,
                 };
-                if has_body && generics.count() == 0 && generics.parent_count == 0 {
+                let non_generic = generics.count() == 0 && generics.parent_count == 0;
+                // generic-parent associated consts are evaluated too when their value does
+                // not depend on the parameters (const_eval_poly reports TooGeneric otherwise)
+                let small_scalar = ty.is_integral() || ty.is_bool() || ty.is_char()
+                    || matches!(ty.kind(), ty::Adt(a, _) if a.is_struct() && a.non_enum_variant().fields.len() == 1);
+                if has_body && (non_generic || (small_scalar && !matches!(kind, DefKind::Static { .. }))) {
                     let r = match kind {
                         DefKind::Static { .. } => tcx.eval_static_initializer(def).ok().and_then(|alloc| {
                             let len = alloc.inner().len();
